@@ -127,6 +127,7 @@ def rule_bind_thread(db: ProgramDB) -> List[Instance]:
                         f"`{', '.join(sorted(bparams))}`", line=s.line))
     out.extend(_helper_sites(db, model))
     out.extend(_carries_incoming(db, model))
+    out.extend(_merged_before_handed_on(db, model))
     return out
 
 
@@ -150,6 +151,45 @@ def _on_every_path_to(db: ProgramDB, x: ast.AST, site: ast.AST, loop: ast.AST) -
         return res
     cs = set(chain(site))
     return all(c in cs or c[0] == id(loop) for c in chain(x))
+
+
+def _merged_before_handed_on(db: ProgramDB, model: SiteModel) -> List[Instance]:
+    """A contradiction rule.  An operator that merges the incoming binding into the row of its operand (`row.update(sources)`) on one path
+    before it hands the row on believes that the row may lack it (the row of a boolean attribute or of a predicate over a variable that is
+    not bound yet holds only what that operand bound).  Then every path that hands the same row on has to merge first: a false row of a
+    conjunction handed to the enclosing or_ without the outer binding is taken for a repeat of the false row for another outer value, and
+    the or_ never tries its right side for that value."""
+    out = []
+    for fn in sorted(db.all_functions(), key=lambda f: f.qualname):
+        if not fn.is_generator or fn.cls is None or not is_eval_name(fn.name):
+            continue
+        bparams = binding_params(fn)
+        if not bparams:
+            continue
+        merges = [c for c in own_nodes(fn.node) if isinstance(c, ast.Call) and isinstance(c.func, ast.Attribute) and c.func.attr == "update"
+                  and isinstance(c.func.value, ast.Name) and c.args and isinstance(c.args[0], ast.Name) and c.args[0].id in bparams]
+        for r in sorted({c.func.value.id for c in merges}):
+            loops = [l for l in own_nodes(fn.node) if isinstance(l, ast.For) and r in loop_targets(l)]
+            if len(loops) != 1:
+                continue
+            loop = loops[0]
+            mine = [c for c in merges if c.func.value.id == r and any(c is x for x in ast.walk(loop))]
+            hands = []
+            for y in ast.walk(loop):
+                if isinstance(y, ast.Yield) and y.value is not None:
+                    v = y.value
+                    if isinstance(v, ast.Call) and dotted(v.func) in ("copy", "dict") and v.args:
+                        v = v.args[0]
+                    if isinstance(v, ast.Name) and v.id == r:
+                        hands.append(y)
+            for k, y in enumerate(sorted(hands, key=lambda n: (n.lineno, n.col_offset))):
+                ok = any((c.lineno, c.col_offset) < (y.lineno, y.col_offset) and _on_every_path_to(db, c, y, loop) for c in mine)
+                out.append(inst("BIND-THREAD", HOLDS if ok else VIOLATION, fn, f"{fn.short}[yield {r} #{k + 1}][merged with the incoming binding first]",
+                                f"`{r}` is completed with `{', '.join(sorted(bparams))}` on every path before it is handed on" if ok else
+                                f"`{r}` is completed with the incoming `{', '.join(sorted(bparams))}` on another path of this loop (line {mine[0].lineno}), but handed on here without: "
+                                f"the row of an operand holds only what the operand bound, so this row lacks the bindings made outside - below an or_ under an outer variable the "
+                                f"false row for the second outer value is taken for a repeat of the first, and the right side of the or_ is never tried for it", line=y.lineno))
+    return out
 
 
 def _carries_incoming(db: ProgramDB, model: SiteModel) -> List[Instance]:
